@@ -74,7 +74,7 @@ def check(ctx):
                 ctx.violated("R5-n-from-plan", c, "the number of averages must be read from the plan field 'navg' (reads: %s)" % sorted(str(z) for z in closure), where)
             else:
                 ctx.holds("R5-n-from-plan", c, "", where)
-    table_purity(ctx)
+    table_purity(ctx, cells=tuple(ERRS) + ("Gxx", "Gyy", "Gxy", "Hxy", "coh"), T=T)
     ctx.trust("E4 partial evaluation of __getattr__", "L6 u <= arcsin u <= (pi/2) u on [0,1]", "L8 Cauchy-Schwarz (XX*YY-|XY|^2 >= 0)")
     ctx.assume("exact arithmetic; generic branch (coherence in (0,1), n >= 1)")
     return ("All 12 *_dev/*_error cells x 2 modes are partially evaluated and compared as normal forms with the textbook expressions; "
